@@ -818,8 +818,18 @@ Record Inv (v : variant) (san : bytes -> bytes) (s : state) : Prop := {
   i_idle : s_run s = false -> s_act s = [] /\ s_chan s = [] /\ s_rbuf s = [] /\ s_pend s = []
 }.
 
+(* a buffer write of the guarded class that converts, or - once the conversion comes before the
+   WAL append - ANY write that the conversion rejects (it leaves no trace) *)
 Definition write_guard (v : variant) (san : bytes -> bytes) (now : Z) (w : bwrite) : Prop :=
-  bw_guard v san w /\ live_batch san now w <> None.
+  (bw_guard v san w /\ live_batch san now w <> None) \/
+  (v_convert_first v = true /\ live_batch san now w = None).
+
+Lemma write1_rejected v san now s w :
+  v_convert_first v = true -> live_batch san now w = None -> write1 v san now s w = (s, None).
+Proof.
+  intros Hv Hl. unfold write1. destruct (bw_parts san now w) as [[[db meas] cols]|]; [|reflexivity].
+  rewrite Hl, Hv. reflexivity.
+Qed.
 
 Definition ev_guard (v : variant) (san : bytes -> bytes) (e : event) : Prop :=
   match e with
@@ -840,7 +850,7 @@ Proof.
 Qed.
 
 Lemma write1_ok v san now s w :
-  write_guard v san now w ->
+  bw_guard v san w /\ live_batch san now w <> None ->
   exists rows s', write1 v san now s w = (s', Some rows) /\
     extends s s' (wal_entries v w) /\ Forall (good v san) (wal_entries v w) /\
     frows v san (wal_entries v w) = rows /\ sub_ms (cov v s) (cov v s') /\ sub_ms (s_rbuf s') (s_rbuf s).
@@ -874,22 +884,26 @@ Qed.
 
 Lemma write_all_ok v san now ws : forall s,
   Forall (write_guard v san now) ws ->
-  exists rows s' E, write_all v san now s ws = (s', rows, true) /\
+  exists rows s' E ok, write_all v san now s ws = (s', rows, ok) /\
     extends s s' E /\ Forall (good v san) E /\ frows v san E = rows /\
     sub_ms (cov v s) (cov v s') /\ sub_ms (s_rbuf s') (s_rbuf s).
 Proof.
   induction ws as [|w ws IH]; intros s Hg.
-  - exists [], s, []. cbn. repeat split; try apply sub_ms_refl; try constructor.
+  - exists [], s, [], true. cbn. repeat split; try apply sub_ms_refl; try constructor.
     unfold extends. rewrite !app_nil_r. destruct (s_gate s); repeat split.
-  - inversion Hg as [|? ? Hw Hws]; subst.
-    destruct (write1_ok v san now s w Hw) as [rows [s1 [H1 [Hx [Hgd [Hfr [Hc Hr]]]]]]].
-    destruct (IH s1 Hws) as [rows' [s2 [E [H2 [Hx' [Hgd' [Hfr' [Hc' Hr']]]]]]]].
-    exists (rows ++ rows'), s2, (wal_entries v w ++ E).
-    cbn [write_all]. rewrite H1, H2.
-    split; [reflexivity|]. split; [eapply extends_trans; eassumption|].
-    split; [apply Forall_app; split; assumption|].
-    split; [rewrite frows_app by assumption; congruence|].
-    split; eapply sub_ms_trans; eassumption.
+  - inversion Hg as [|? ? Hw Hws]; subst. destruct Hw as [Hw|[Hv Hl]].
+    + destruct (write1_ok v san now s w Hw) as [rows [s1 [H1 [Hx [Hgd [Hfr [Hc Hr]]]]]]].
+      destruct (IH s1 Hws) as [rows' [s2 [E [ok [H2 [Hx' [Hgd' [Hfr' [Hc' Hr']]]]]]]]].
+      exists (rows ++ rows'), s2, (wal_entries v w ++ E), ok.
+      cbn [write_all]. rewrite H1, H2.
+      split; [reflexivity|]. split; [eapply extends_trans; eassumption|].
+      split; [apply Forall_app; split; assumption|].
+      split; [rewrite frows_app by assumption; congruence|].
+      split; eapply sub_ms_trans; eassumption.
+    + (* rejected before anything was appended: the request stops here, nothing changed *)
+      exists [], s, [], false. cbn [write_all]. rewrite (write1_rejected v san now s w Hv Hl).
+      split; [reflexivity|]. split; [unfold extends; rewrite !app_nil_r; destruct (s_gate s); repeat split|].
+      repeat split; try constructor; apply sub_ms_refl.
 Qed.
 
 Lemma files_rows_app v san a b : files_rows v san (a ++ b) = files_rows v san a ++ files_rows v san b.
@@ -988,7 +1002,7 @@ Proof.
   - (* write *)
     destruct (s_run s) eqn:Er; [|exact HI].
     cbn [ev_guard] in G.
-    destruct (write_all_ok v san now ws s G) as [rows [s1 [E [Hw [[X1 [X2 [X3 [X4 [X5 X6]]]]] [Hg [Hfr [Hc Hr]]]]]]]].
+    destruct (write_all_ok v san now ws s G) as [rows [s1 [E [ok [Hw [[X1 [X2 [X3 [X4 [X5 X6]]]]] [Hg [Hfr [Hc Hr]]]]]]]]].
     rewrite Hw.
     assert (I1 : Inv v san s1).
     { constructor.
@@ -1000,7 +1014,7 @@ Proof.
       - rewrite X3.
         destruct (s_gate s); destruct X6 as [Y1 Y2]; rewrite Y2; [|rewrite frows_app by assumption]; ms.
       - rewrite X4, Er. discriminate. }
-    destruct (true && tail_ok); [|exact I1].
+    destruct (ok && tail_ok); [|exact I1].
     destruct I1 as [If1 Ia1 Ic1 Id1 Ip1 Ii1].
     constructor; cbn.
     + exact If1.
@@ -1488,7 +1502,7 @@ Definition h_window : list event :=
 
 Lemma plain_guard v : write_guard v idsan 0 w_plain.
 Proof.
-  split; [|vm_compute; discriminate].
+  left. split; [|vm_compute; discriminate].
   cbn [bw_guard w_plain]. unfold rows_guard.
   split; [reflexivity|]. split; [reflexivity|].
   split; [repeat constructor; cbn; intuition discriminate|].
@@ -1664,4 +1678,46 @@ Proof.
   intros san db meas cols H1 H2 H3 [tc [H4 H5]] H6 H7 H8. unfold rows_guard.
   repeat split; try assumption; try (left; reflexivity).
   exists tc. repeat split; try assumption. left; reflexivity.
+Qed.
+
+(* ------------------------------------------------------------------------------------ *)
+(* the repaired code: what is left of the guards                                          *)
+
+Theorem repaired_rows_guard : forall v san db meas cols,
+  v_routing_last v = true -> v_strict_keys v = true -> v_rows_no_renorm v = true ->
+  nonempty db = true -> nonempty meas = true -> NoDup (map fst cols) ->
+  (exists tc, lookupb k_time cols = Some tc /\ tc <> []) ->
+  (exists n, all_len n cols = true) ->
+  forallb (fun nc => homog_col (snd nc)) cols = true ->
+  clean_cols san cols ->
+  rows_guard v san db meas cols.
+Proof.
+  intros v san db meas cols F1 F2 F3 H1 H2 H3 [tc [H4 H5]] H6 H7 H8. unfold rows_guard.
+  repeat split; try assumption; try (left; assumption).
+  exists tc. repeat split; try assumption. left; assumption.
+Qed.
+
+Theorem repaired_raw_guard : forall v db top,
+  v_int_m v = true -> nonempty db = true ->
+  (exists l tc, lookupb k_columns top = Some (GMap l) /\ lookupb k_time (array_cols l) = Some tc /\ tc <> []) ->
+  raw_guard v db top.
+Proof. intros v db top F H1 H2. unfold raw_guard. repeat split; try assumption. right; exact F. Qed.
+
+Theorem crash_any_prefix_repaired : forall v san evs k now,
+  v_flush_before_delete v = true ->
+  Forall (ev_guard v san) evs ->
+  sub_ms (s_due (run_events v san st0 (firstn k evs)))
+         (s_store (run_events v san st0 (firstn k evs ++ restart now))).
+Proof. intros v san evs k now F G. apply crash_any_prefix; [exact G|left; exact F]. Qed.
+
+Theorem live_routing_repaired : forall v san now aa al r f,
+  v_empty_meas_checked v = true ->
+  front v san now aa al r = Some f ->
+  (forall w, In (Some w) (f_writes f) ->
+     exists meas cols, bw_parts san now w = Some (f_db f, meas, cols) /\ In meas (f_checked f)) /\
+  (f_writes f <> [] -> forallb (allowed aa al (f_db f)) (f_checked f) = true).
+Proof.
+  intros v san now aa al r f F H. destruct (live_routing v san now aa al r f H) as [A B]. split; [|exact B].
+  intros w Hin. destruct (A w Hin) as [meas [cols [H1 [[H2 _]|H2]]]]; [congruence|].
+  exists meas, cols. split; assumption.
 Qed.
